@@ -54,32 +54,36 @@ func (c cfg) String() string {
 }
 
 func (eng) Cases(seed uint64, tier string) []core.CaseDesc {
-	maxN := 3
+	maxN, reps := 3, 1
 	if tier == "thorough" {
-		maxN = 4
+		maxN, reps = 5, 6
 	}
 	var cs []core.CaseDesc
+	rep := 0
 	add := func(c cfg) {
 		raw, _ := json.Marshal(c)
-		cs = append(cs, core.CaseDesc{ID: fmt.Sprintf("cfg/%04d", len(cs)), Kind: "cfg", Seed: seed + uint64(len(cs)), P: raw})
+		cs = append(cs, core.CaseDesc{ID: fmt.Sprintf("cfg/%04d", len(cs)), Kind: "cfg", Seed: seed + uint64(len(cs)) + uint64(rep)*1000003, P: raw})
 	}
-	for n := 1; n <= maxN; n++ {
-		names := gen.AllNames[:n]
-		subsets := gen.Subsets(names)
-		for _, noSchema := range []bool{false, true} {
-			for _, shallow := range []bool{false, true} {
-				add(cfg{N: n, NoSchema: noSchema, Shallow: shallow, Kind: "deltas"})
-				for _, s := range subsets {
-					if len(s) == n {
-						continue
+	for rep = 0; rep < reps; rep++ {
+		for n := 1; n <= maxN; n++ {
+			names := gen.AllNames[:n]
+			subsets := gen.Subsets(names)
+			for _, noSchema := range []bool{false, true} {
+				for _, shallow := range []bool{false, true} {
+					add(cfg{N: n, NoSchema: noSchema, Shallow: shallow, Kind: "deltas"})
+					for _, s := range subsets {
+						if len(s) == n {
+							continue
+						}
+						add(cfg{N: n, Allow: s, NoSchema: noSchema, Shallow: shallow, Kind: "deltas"})
+						add(cfg{N: n, Skip: s, NoSchema: noSchema, Shallow: shallow, Kind: "deltas"})
 					}
-					add(cfg{N: n, Allow: s, NoSchema: noSchema, Shallow: shallow, Kind: "deltas"})
-					add(cfg{N: n, Skip: s, NoSchema: noSchema, Shallow: shallow, Kind: "deltas"})
 				}
+				add(cfg{N: n, NoSchema: noSchema, Muts: true, Kind: "deltas"})
 			}
-			add(cfg{N: n, NoSchema: noSchema, Muts: true, Kind: "deltas"})
 		}
 	}
+	rep = 0
 	for _, noSchema := range []bool{false, true} {
 		add(cfg{N: 3, NoSchema: noSchema, Kind: "boundary"})
 		add(cfg{N: 3, Allow: []string{"A", "C"}, NoSchema: noSchema, Kind: "boundary"})
